@@ -126,7 +126,18 @@ def gen_impure_stack(rng):
     else:
         top = {'k': 'groupby', 'by': 'k'}
         expect = 'reject' if tainted & set(fields) else 'accept'
-    if nest and len(layers) >= 2:
+    if rng.random() < 0.25 and kind not in ('groupby',):
+        # Merge of a pure twin and the (possibly tainted) dataset, both continued by the same layers
+        twin = {'k': 'source', 'cls': 'S0p', 'ids': ['j1', 'j2'],
+                'fields': {'a': {'args': ['i']}, 'b': {'args': ['i']}, 'k': {'args': ['i'], 'table': [[['j1'], 'u'], [['j2'], 'v']]}},
+                'params': {}, 'cargs': {}, 'defaults': {}}
+        parts = [{'k': 'chain', 'flavour': 'chain', 'layers': [twin] + layers[1:]} if len(layers) > 1 else twin,
+                 {'k': 'chain', 'flavour': 'chain', 'layers': layers} if len(layers) > 1 else layers[0]]
+        if rng.random() < 0.5:
+            parts.reverse()
+        desc = {'k': 'chain', 'flavour': 'chain', 'layers': [{'k': 'merge', 'parts': parts}, top]}
+        kind = kind + '+merge'
+    elif nest and len(layers) >= 2:
         desc = {'k': 'chain', 'flavour': 'chain', 'layers': [{'k': 'chain', 'flavour': 'chain', 'layers': layers}, top]}
     else:
         desc = {'k': 'chain', 'flavour': 'chain', 'layers': layers + [top]}
@@ -140,11 +151,19 @@ def run_pipeline_shard(args):
     problems = []
     stats = {'stacks': 0, 'reject': 0, 'accept': 0, 'kinds': {}}
     try:
+        # one builder for half of the shard: classes (hence edge objects) and layer objects are shared by all its pipelines,
+        # so pure and impure pipelines are built from the same objects in every order (what was validated before must not matter)
+        shared_b = Builder(SymWorld(), roots=[tempfile.mkdtemp(dir=scratch)])
+        shared_b.object_pool = {}
         for c in range(n):
             rng = random.Random(seed * 27449 + c)
             desc, expect, kind = gen_impure_stack(rng)
             root = tempfile.mkdtemp(dir=scratch)
-            b = Builder(SymWorld(), roots=[root])
+            if c % 2:
+                b = shared_b
+                stats['shared_objects'] = stats.get('shared_objects', 0) + 1
+            else:
+                b = Builder(SymWorld(), roots=[root])
             stats['stacks'] += 1
             stats[expect] += 1
             stats['kinds'][kind] = stats['kinds'].get(kind, 0) + 1
